@@ -1808,6 +1808,19 @@ def _to_bytes(little):
         n = as_big(ex, st, args[0]).e
         mag = z3.If(n >= 0, n, -n)
         f = be_bytes_fn()
+        # exact bytes when the magnitude is bounded by the path condition (< 2^32): minimal big-endian digits, 0 -> [0]
+        if ex.check(st.pc, mag >= (1 << 32)) == "unsat":
+            b32 = z3.Int2BV(mag, 32)
+            out = []
+            for L in range(1, 5):
+                lo = 0 if L == 1 else 256 ** (L - 1)
+                rng = z3.And(mag >= lo, mag < 256 ** L)
+                bs = [BV(z3.Extract(8 * (L - i) - 1, 8 * (L - i - 1), b32), 8, False) for i in range(L)]
+                if little:
+                    bs = list(reversed(bs))
+                for cond, sg in _sign_adt(n):
+                    out.append((z3.And(rng, cond), Tup((sg, VecV(Arr(tuple(bs)))))))
+            return out
         bs = VecV(Bytes(f["lf" if little else "f"](mag)))
         return [(cond, Tup((sg, bs))) for cond, sg in _sign_adt(n)]
     return h
@@ -2044,3 +2057,322 @@ def _ed25519_verify(ex, st, c, args, dty):
             return bytes_of_arr(it)
         raise Unsupported("ed25519 argument")
     return BoolV(_ed[0](seq_of(args[0]), seq_of(args[1]), seq_of(args[2])))
+
+
+# ---------------------------------------------------------------------------------------------
+# T2: operator traits on machine integers, ordering of byte vectors, bit vectors, popcount, lazies
+
+_OPTRAITS = {"BitXor": "BitXor", "BitAnd": "BitAnd", "BitOr": "BitOr", "Shl": "Shl", "Shr": "Shr", "Add": "Add", "Sub": "Sub", "Mul": "Mul"}
+
+
+@reg_pred(lambda c: c.trait is not None and _type_head(c.trait) in _OPTRAITS and _type_head(c.qself or "") in INT_TYPES)
+def _int_op_trait(ex, st, c, args, dty):
+    a, b = deref(ex, st, args[0]), deref(ex, st, args[1])
+    return ex.binop(_OPTRAITS[_type_head(c.trait)], a, b)
+
+
+@reg_pred(lambda c: c.trait is not None and _type_head(c.trait) == "Not" and _type_head(c.qself or "") in INT_TYPES)
+def _int_not_trait(ex, st, c, args, dty):
+    a = deref(ex, st, args[0])
+    return BV(~a.e, a.bits, a.signed) if not z3.is_int(a.e) else BV(z3.BV2Int(~z3.Int2BV(a.e, a.bits), a.signed), a.bits, a.signed)
+
+
+def _as_byte_list(ex, st, v):
+    it = items_of(ex, st, v)
+    if isinstance(it, Arr):
+        return [e.e if not z3.is_int(e.e) else z3.Int2BV(e.e, 8) for e in it.elems]
+    if isinstance(it, Bytes):
+        us = seq_units(it.s)
+        if us is not None:
+            return us
+    raise Unsupported("byte-wise operation on a symbolic-length byte string (enumerate lengths in the obligation)")
+
+
+def _lex_lt(a, b):
+    res = z3.BoolVal(len(a) < len(b))
+    for i in range(min(len(a), len(b)) - 1, -1, -1):
+        res = z3.If(a[i] == b[i], res, z3.ULT(a[i], b[i]))
+    return res
+
+
+@reg("<Vec as PartialOrd>::lt", "<Vec as PartialOrd>::le", "<Vec as PartialOrd>::gt", "<Vec as PartialOrd>::ge",
+     "<[T] as PartialOrd>::lt", "<[T] as PartialOrd>::le")
+def _vec_cmp(ex, st, c, args, dty):
+    a, b = _as_byte_list(ex, st, args[0]), _as_byte_list(ex, st, args[1])
+    lt, gt = _lex_lt(a, b), _lex_lt(b, a)
+    return BoolV({"lt": lt, "le": z3.Not(gt), "gt": gt, "ge": z3.Not(lt)}[c.method])
+
+
+def _small_cases(ex, st, n_int, limit, what):
+    """enumerate the values of a small non-negative integer expression under the path condition"""
+    ns = z3.simplify(n_int)
+    if is_concrete(ns):
+        return [(None, ns.as_long())]
+    if ex.check(st.pc, z3.Or(n_int > limit, n_int < 0)) != "unsat":
+        raise Unsupported(f"{what} with an unbounded symbolic length (bound it by an assumption <= {limit})")
+    return [(n_int == k, k) for k in range(limit + 1)]
+
+
+@reg("vec::from_elem")
+def _from_elem2(ex, st, c, args, dty):
+    n = ex.to_int_expr(args[1])
+    x = args[0]
+    out = []
+    for cond, k in _small_cases(ex, st, n, 16, "vec![x; n]"):
+        out.append((cond, VecV(Arr(tuple([x] * k)))))
+    return out
+
+
+@reg("[T]::repeat")
+def _slice_repeat(ex, st, c, args, dty):
+    items = items_of(ex, st, args[0])
+    if not isinstance(items, Arr):
+        raise Unsupported("repeat of a symbolic-length slice")
+    n = ex.to_int_expr(args[1])
+    return [(cond, VecV(Arr(items.elems * k))) for cond, k in _small_cases(ex, st, n, 16, "repeat")]
+
+
+@reg_pred(lambda c: c.trait is not None and _type_head(c.trait) == "Itertools" and c.method == "zip_longest")
+def _zip_longest(ex, st, c, args, dty):
+    a = _as_arr(_iter_items(ex, st, args[0]))
+    b = _as_arr(_iter_items(ex, st, args[1]))
+    out = []
+    for i in range(max(len(a.elems), len(b.elems))):
+        if i < len(a.elems) and i < len(b.elems):
+            out.append(Adt("EitherOrBoth", "Both", (a.elems[i], b.elems[i])))
+        elif i < len(a.elems):
+            out.append(Adt("EitherOrBoth", "Left", (a.elems[i],)))
+        else:
+            out.append(Adt("EitherOrBoth", "Right", (b.elems[i],)))
+    return _mk_iter(Arr(tuple(out)))
+
+
+@reg("<BigInt as FromPrimitive>::from_usize", "<BigInt as FromPrimitive>::from_u64", "<BigInt as FromPrimitive>::from_i64")
+def _big_from_prim(ex, st, c, args, dty):
+    return Adt("Option", "Some", (BigI(ex.to_int_expr(args[0])),))
+
+
+@reg_pred(lambda c: c.trait is not None and _type_head(c.trait) in ("Shl", "Shr") and _is_big(c.qself))
+def _big_shift(ex, st, c, args, dty):
+    a = as_big(ex, st, args[0]).e
+    k = z3.simplify(ex.to_int_expr(deref(ex, st, args[1])))
+    if not is_concrete(k):
+        raise Unsupported("BigInt shift by a symbolic amount")
+    p = z3.IntVal(1 << k.as_long())
+    if _type_head(c.trait) == "Shl":
+        return BigI(a * p)
+    return BigI(_floor_div(a, p))
+
+
+@reg("weight", "hamming::weight")
+def _hamming_weight(ex, st, c, args, dty):
+    bs = _as_byte_list(ex, st, args[0])
+    tot = z3.IntVal(0)
+    for b in bs:
+        for i in range(8):
+            tot = tot + z3.BV2Int(z3.Extract(i, i, b), False)
+    return BV(tot, 64, False)
+
+
+def _u8_fn(name):
+    def deco(f):
+        TABLE[f"u8::{name}"] = f
+        return f
+    return deco
+
+
+@_u8_fn("reverse_bits")
+def _u8_reverse_bits(ex, st, c, args, dty):
+    a = args[0]
+    e = a.e if not z3.is_int(a.e) else z3.Int2BV(a.e, 8)
+    return BV(z3.Concat(*[z3.Extract(i, i, e) for i in range(8)]), 8, False)
+
+
+@_u8_fn("leading_zeros")
+def _u8_leading_zeros(ex, st, c, args, dty):
+    a = args[0]
+    e = a.e if not z3.is_int(a.e) else z3.Int2BV(a.e, 8)
+    r = z3.BitVecVal(8, 32)
+    for i in range(8):  # highest set bit wins
+        r = z3.If(z3.Extract(i, i, e) == 1, z3.BitVecVal(7 - i, 32), r)
+    return BV(r, 32, False)
+
+
+@_u8_fn("count_ones")
+def _u8_count_ones(ex, st, c, args, dty):
+    e = args[0].e
+    tot = z3.BitVecVal(0, 32)
+    for i in range(8):
+        tot = tot + z3.ZeroExt(31, z3.Extract(i, i, e))
+    return BV(tot, 32, False)
+
+
+# generic consumers of concrete-length iterators -----------------------------------------------
+
+
+def _elems_of_iter(ex, st, it):
+    cases = _force_iter(ex, st.clone(), it)
+    return cases
+
+
+@reg_pred(lambda c: c.trait is not None and _type_head(c.trait) == "Iterator" and c.method in ("find_map", "find", "any", "all", "position", "for_each", "fold", "count", "sum", "last", "min", "max"))
+def _iter_consume(ex, st, c, args, dty):
+    out = []
+    for s0, items in _force_iter(ex, st.clone(), args[0]):
+        if isinstance(items, Panic):
+            out.append((s0, items))
+            continue
+        if isinstance(items, Bytes):
+            us = seq_units(items.s)
+            if us is None:
+                raise Unsupported(f"{c.method} over a symbolic-length byte iterator")
+            items = Arr(tuple(BV(u, 8, False) for u in us))
+        items = _as_arr(items)
+        m = c.method
+        if m == "count":
+            out.append((s0, ex.mk_int(len(items.elems), 64, False)))
+            continue
+        if m == "last":
+            out.append((s0, Adt("Option", "Some", (items.elems[-1],)) if items.elems else Adt("Option", "None", ())))
+            continue
+        if m in ("sum", "min", "max"):
+            raise Unsupported(f"iterator {m}")
+        if m == "fold":
+            states = [(s0, args[1])]
+            for e in items.elems:
+                nxt = []
+                for s1, acc in states:
+                    for s2, r in call_closure(ex, s1, args[2], [acc, e]):
+                        nxt.append((s2, r))
+                states = nxt
+                if any(isinstance(r, Panic) for _, r in states):
+                    out += [(s, r) for s, r in states if isinstance(r, Panic)]
+                    states = [(s, r) for s, r in states if not isinstance(r, Panic)]
+            out += states
+            continue
+        # short-circuiting consumers
+        states = [s0]
+        done = []
+        f = args[1]
+        for idx, e in enumerate(items.elems):
+            nxt = []
+            for s1 in states:
+                for s2, r in call_closure(ex, s1, f, [e]):
+                    if isinstance(r, Panic):
+                        done.append((s2, r))
+                        continue
+                    if m == "find_map":
+                        if r.variant == "Some":
+                            done.append((s2, r))
+                        else:
+                            nxt.append(s2)
+                    elif m == "for_each":
+                        nxt.append(s2)
+                    else:
+                        be = z3.simplify(r.e)
+                        for val, cond in ((True, r.e), (False, z3.Not(r.e))):
+                            if z3.is_true(z3.simplify(cond)):
+                                pass
+                            elif z3.is_false(z3.simplify(cond)) or ex.check(s2.pc, cond) != "sat":
+                                continue
+                            s3 = s2.clone()
+                            s3.pc.append(cond)
+                            hit = (val and m in ("find", "any", "position")) or ((not val) and m == "all")
+                            if hit:
+                                res = {"find": Adt("Option", "Some", (e,)), "any": BoolV(z3.BoolVal(True)), "all": BoolV(z3.BoolVal(False)),
+                                       "position": Adt("Option", "Some", (ex.mk_int(idx, 64, False),))}[m]
+                                done.append((s3, res))
+                            else:
+                                nxt.append(s3)
+            states = nxt
+        final = {"find_map": Adt("Option", "None", ()), "find": Adt("Option", "None", ()), "position": Adt("Option", "None", ()),
+                 "any": BoolV(z3.BoolVal(False)), "all": BoolV(z3.BoolVal(True)), "for_each": UNIT}[m]
+        out += done + [(s, final) for s in states]
+    return Forked(out)
+
+
+# bitvec::BitVec<u8, Msb0> over a concrete-length byte vector: one big bit-vector, bit 0 = MSB of byte 0 -----
+
+
+def _bitvec_of(ex, st, v):
+    bs = _as_byte_list(ex, st, v)
+    return LibV("bitvec", (tuple(bs),))
+
+
+@reg("BitVec::from_vec")
+def _bitvec_from_vec(ex, st, c, args, dty):
+    return _bitvec_of(ex, st, args[0])
+
+
+def _bitvec_big(bv):
+    bs = bv.data[0]
+    if not bs:
+        return None
+    return z3.Concat(*bs) if len(bs) > 1 else bs[0]
+
+
+def _bitvec_split(big, n):
+    return tuple(z3.Extract(8 * (n - i) - 1, 8 * (n - i - 1), big) for i in range(n))
+
+
+def _bitvec_op(kind):
+    def h(ex, st, c, args, dty):
+        r = args[0]
+        bv = deref1(ex, st, r)
+        n = len(bv.data[0])
+        if n == 0:
+            return UNIT
+        big = _bitvec_big(bv)
+        amt = ex.to_int_expr(args[1])
+        bits = 8 * n
+        inb = z3.And(amt >= 0, amt <= bits)
+        a = z3.Int2BV(amt, bits)
+        if kind == "shl":
+            res = z3.If(amt >= bits, z3.BitVecVal(0, bits), big << a)
+        elif kind == "shr":
+            res = z3.If(amt >= bits, z3.BitVecVal(0, bits), z3.LShR(big, a))
+        else:
+            res = z3.RotateLeft(big, z3.Int2BV(amt % bits, bits)) if kind == "rotl" else z3.RotateRight(big, z3.Int2BV(amt % bits, bits))
+
+        def eff(s):
+            write_through(ex, s, r, LibV("bitvec", (_bitvec_split(res, n),)))
+            return UNIT
+        # bitvec panics when the amount exceeds the length
+        return [(inb, Effect(eff)), (z3.Not(inb), Panic(f"bitvec {kind}: amount exceeds the length"))]
+    return h
+
+
+TABLE["BitVec::shift_left"] = _bitvec_op("shl")
+TABLE["BitVec::shift_right"] = _bitvec_op("shr")
+TABLE["BitVec::rotate_left"] = _bitvec_op("rotl")
+TABLE["BitVec::rotate_right"] = _bitvec_op("rotr")
+TABLE["BitSlice::shift_left"] = _bitvec_op("shl")
+TABLE["BitSlice::shift_right"] = _bitvec_op("shr")
+TABLE["BitSlice::rotate_left"] = _bitvec_op("rotl")
+TABLE["BitSlice::rotate_right"] = _bitvec_op("rotr")
+
+
+@reg("BitVec::into_vec")
+def _bitvec_into_vec(ex, st, c, args, dty):
+    bv = args[0]
+    return VecV(Arr(tuple(BV(b, 8, False) for b in bv.data[0])))
+
+
+@reg_pred(lambda c: c.method in ("deref", "deref_mut") and c.qself is not None and _type_head(c.qself) == "BitVec")
+def _bitvec_deref(ex, st, c, args, dty):
+    return args[0]
+
+
+# once_cell::sync::Lazy -------------------------------------------------------------------------
+
+
+@reg("Lazy::new")
+def _lazy_new(ex, st, c, args, dty):
+    return LibV("lazy", (args[0],))
+
+
+@reg("<Lazy as Deref>::deref", "Lazy::force")
+def _lazy_deref(ex, st, c, args, dty):
+    lz = deref(ex, st, args[0])
+    cases = call_closure(ex, st, lz.data[0], [])
+    return Forked([(s, v if isinstance(v, Panic) else ex.alloc(s, v, False)) for s, v in cases])
